@@ -87,7 +87,12 @@ func genFor(ad *adapter) func(p *simrt.Tape) any {
 				if len(ad.invalid) > 0 && p.Draw(4) == 3 {
 					pp.Class = ad.invalid[p.Pick(len(ad.invalid))]
 				}
-				pp.Q = p.Pick(ad.maxQ + 1)
+				if ad.kind == "majority" {
+					// skewed, so that nodes agree often
+					pp.Q = min(ad.maxQ, []int{0, 0, 0, 0, 1, 1, 2, 3}[p.Pick(8)])
+				} else {
+					pp.Q = p.Pick(ad.maxQ + 1)
+				}
 				pp.IgnoreCtx = p.Draw(10) == 9 && pp.Kind != "hang"
 				cp.Provs = append(cp.Provs, pp)
 			}
@@ -506,11 +511,20 @@ func (h *harness) judge(out *sim.Outcome) *simrt.Violation {
 					add("majority-not-most-frequent", "%s: returned %s (reported %d times) although %s had been reported %d times", desc, cr.key, cntLE[cr.key], w, n)
 				}
 				probe("majority:value")
-				if _, n := maxOf(cntLT); n >= 2 {
-					probe("majority:agreement>=2")
+				if cntLE[cr.key] >= 2 {
+					probe("majority:value-reported>=2")
+				}
+				if cntLE[cr.key] == thr {
+					probe("majority:value-at-threshold-exactly")
+				}
+				if len(cntLE) >= 2 {
+					probe("majority:competing-values")
 				}
 			} else {
 				probe("majority:fail")
+				if _, n := maxOf(cntHard); n == thr-1 && n > 0 {
+					probe("majority:fail-one-short-of-threshold")
+				}
 				_, nLT := maxOf(cntLT)
 				wH, nH := maxOf(cntHard)
 				wP, nP := maxOf(cntPlan)
@@ -533,13 +547,20 @@ func (h *harness) judge(out *sim.Outcome) *simrt.Violation {
 }
 
 func init() {
-	// C07_CRASHERS=1 also feeds nil Data to the three strategies that dereference it
+	// C07_CRASHERS=1 also feeds nil Data (and nil inner fields) to the strategies that dereference them
 	// unchecked (C16's business; off by default to keep C07 about choice and timing).
-	if os.Getenv("C07_CRASHERS") != "" {
+	if sel := os.Getenv("C07_CRASHERS"); sel != "" {
+		extra := map[string][]string{
+			"beaconblockproposal-best":  {"nildata", "nilvalue"},
+			"beaconblockroot-latest":    {"nildata"},
+			"beaconblockroot-majority":  {"nildata"},
+			"aggregateattestation-best": {"nilattdata"},
+		}
 		for _, ad := range adapters {
-			switch ad.name {
-			case "beaconblockproposal-best", "beaconblockroot-latest", "beaconblockroot-majority":
-				ad.invalid = append(ad.invalid, "nildata")
+			for _, cl := range extra[ad.name] {
+				if sel == "1" || sel == cl { // C07_CRASHERS=<class> feeds only that class
+					ad.invalid = append(ad.invalid, cl)
+				}
 			}
 		}
 	}
